@@ -130,7 +130,7 @@ fn check_step(name: &str, cj: &Value, cs: &[C5], t: usize, vals: &[f64], st: &mu
 	Ok(())
 }
 
-fn run_indicator(c: &RCase, st: &mut Stats) -> CaseResult {
+pub fn run_indicator(c: &RCase, st: &mut Stats) -> CaseResult {
 	let cfg = cfggen::instantiate(&c.cfg).map_err(|e| Failure::new("C12:generator", format!("{}: {e}", c.cfg.name)))?;
 	let name = c.cfg.name.as_str();
 	let cj = cfg.to_json();
@@ -239,6 +239,7 @@ pub fn def(tier: Tier) -> PropertyDef {
 	}
 	checks.push(pt("methods", tier.pick(20000, 100000), gen::val_stream(2, max_len, Domain::Any, false), run_methods));
 	checks.push(pt("candle_helpers", tier.pick(6000, 60000), prop_oneof![gen::candle_stream(2, 300), gen::regime_candle_stream_n(10, 300)], run_candle_helpers));
+	checks.extend(crate::fuzz_entry::corpus_checks("C12"));
 	PropertyDef {
 		id: "C12",
 		level: "exploration",
